@@ -75,12 +75,24 @@ def run_share(ctx, c):
                 if mb2.read() != mb.read():
                     raise Fail("belsGenMid is not deterministic in the identifier")
             else:
-                tp = expand(c["seed"] + "mi%d" % i, ln * 2500)
+                # candidates the algorithm must reject come first on some tapes: conjugates of x (their minimal polynomial is x^l + m0 itself),
+                # 0 and 1 (degree < l); three rejections in a row exhaust the attempts
+                X = lambda j: (1 << (1 << j)).to_bytes(ln, "little")
+                pre = [[], [X(0)], [X(1), (1).to_bytes(ln, "little")], [bytes(ln)], [X(2), X(0)], [X(0), X(1), X(2)], [], []][expand(c["seed"] + "rj%d" % i, 1)[0] % 8]
+                tp = b"".join(pre) + expand(c["seed"] + "mi%d" % i, ln * 2500)
                 r = x.call("belsGenMi", mb, ln, m0b, GEN, x.tape(tp, mode=0))
+                want = RB.gen_mi(ln, m0, tp)
+                ctx.cls("genmi_rejected_%d" % len(pre))
+                if want is None:
+                    if r == 0:
+                        raise Fail("belsGenMi returns ERR_OK after %d rejected candidates (len=%d)" % (len(pre), ln))
+                    tp = expand(c["seed"] + "mj%d" % i, ln * 2500)
+                    r = x.call("belsGenMi", mb, ln, m0b, GEN, x.tape(tp, mode=0))
+                    want = RB.gen_mi(ln, m0, tp)
                 if r:
                     raise Fail("belsGenMi failed: %s" % ename(r))
-                if mb.read() != RB.gen_mi(ln, m0, tp):
-                    raise Fail("belsGenMi != model (len=%d)" % ln)
+                if mb.read() != want:
+                    raise Fail("belsGenMi != model (len=%d, %d rejected candidates first): %s vs %s" % (ln, len(pre), mb.read().hex(), want.hex()))
             if x.call("belsValM", mb, ln):
                 raise Fail("belsValM rejects a generated user key")
             mis.append(mb.read())
